@@ -30,7 +30,16 @@ def analyse(ck, mod, label, rule="R-C07-FLOW", extra_sources=()):
         counts[k0] = counts.get(k0, 0) + 1
         hit = mask & secret_mask
         cons = "%s@%s:%s[%s]" % (kind, _stable_pos(f, I), I.op, label)
-        if hit:
+        if hit and k0 == "select-condition" and label.endswith("/R3"):
+            # a select the optimiser formed from branch-free source arithmetic (a source-level conditional is a branch or select in the N0 form
+            # and reported there): a select is not a branch; its lowering by the backend is outside what is decided (see not_decided)
+            residual = getattr(ck, "c07_residual", None)
+            if residual is None:
+                residual = ck.c07_residual = []
+            residual.append("%s %s" % (fn, relpath(I.where)))
+            ck.ok(rule, fn, "%s#%s[%s]" % (kind, _anchor(f, I), label), "select formed by the optimiser on a secret-dependent condition: not a branch (the source-shaped form has none here); lowering not decided",
+                  where=relpath(I.where))
+        elif hit:
             nviol += 1
             names = d.names(hit)
             bit = (hit & -hit).bit_length() - 1
